@@ -20,57 +20,91 @@ CONSTANTS Bufs,      \* set of initial buffers (reader configuration)
           Items,     \* set of [t |-> type, v |-> value bytes] offered to the sink (writer configuration)
           Acts,      \* names of the enabled actions
           MaxCalls,  \* bound on the number of calls of a behaviour
-          MaxWrites  \* bound on the number of sink writes of a behaviour
+          MaxWrites, \* bound on the number of items held by the sink
+          Spares     \* set of stale contents of the spare capacity a sink may be created over (NewZeroCopySink(buf[:0]))
 
 VARIABLES buf,     \* reader: the byte string
           off,     \* reader: current offset (uint64 in the code; always <= Len(buf) here)
-          sink,    \* writer: bytes written so far
+          sink,    \* writer: bytes written so far (the slice buf[:len])
+          spare,   \* writer: stale content of the spare capacity behind the live bytes (buf[len:cap]): what a reused
+                   \* sink (after Reset / BackUp, or created over a dirty buffer) writes onto
           items,   \* writer: the values written so far (ghost)
           res,     \* result tuple of the last call (history; not in the VIEW)
           act,     \* last call with arguments (history; not in the VIEW)
           ncalls   \* number of calls (bound; not in the VIEW)
 
-vars == <<buf, off, sink, items, res, act, ncalls>>
-view == <<buf, off, sink, items>>
+vars == <<buf, off, sink, spare, items, res, act, ncalls>>
+view == <<buf, off, sink, spare, items>>
 
 \* ------------------------------------------------------------------ state machine
-Init == /\ buf \in Bufs /\ off = 0
+\* a behaviour exercises a reader over some buffer, or a sink created over (possibly dirty) spare capacity
+Init == /\ off = 0
+        /\ \/ buf \in Bufs /\ spare = <<>>
+           \/ buf = <<>> /\ spare \in Spares
         /\ sink = <<>> /\ items = <<>>
         /\ res = NoRes /\ act = [name |-> "Init", n |-> 0] /\ ncalls = 0
 
 Step == ncalls < MaxCalls /\ ncalls' = ncalls + 1
 
 \* reader and writer are separate objects: a behaviour exercises one of them (writes start from the empty reader)
-Read(name, n) == /\ Step /\ name \in Acts /\ items = <<>>
+Read(name, n) == /\ Step /\ name \in Acts /\ items = <<>> /\ spare = <<>>
                  /\ LET r == ReadOp(name, n, buf, off) IN res' = r /\ off' = r.off
                  /\ act' = [name |-> name, n |-> n]
-                 /\ UNCHANGED <<buf, sink, items>>
+                 /\ UNCHANGED <<buf, sink, spare, items>>
 
 \* BackUp(n): off -= n.  Contract of the API (its comment): only bytes returned by earlier calls are backed up,
 \* i.e. n <= off; the spec does not offer the call outside its contract.
-BackUp(n) == /\ Step /\ "BackUp" \in Acts /\ n <= off /\ items = <<>>
+BackUp(n) == /\ Step /\ "BackUp" \in Acts /\ n <= off /\ items = <<>> /\ spare = <<>>
              /\ off' = off - n /\ res' = Res(<<>>, 0, FALSE, FALSE, off - n, "")
              /\ act' = [name |-> "BackUp", n |-> n]
-             /\ UNCHANGED <<buf, sink, items>>
+             /\ UNCHANGED <<buf, sink, spare, items>>
 
-Write(it) == /\ Step /\ "Write" \in Acts /\ buf = <<>> /\ off = 0 /\ ncalls < MaxWrites
+\* Write<t>(v): every Write call reserves its bytes with NextBytes and assigns ALL of them, so the bytes appended do
+\* not depend on the stale content they land on; the stale bytes overwritten leave the spare capacity (a sink that
+\* has to grow gets a fresh zeroed buffer: nothing stale is left)
+Drop(s, n) == IF n >= Len(s) THEN <<>> ELSE SubSeq(s, n + 1, Len(s))
+\* spare capacity after reserving `reserve' bytes and keeping `used' of them (WriteVarUint reserves 9 and backs up)
+After(sp, reserve, used) == IF reserve > Len(sp) THEN <<>> ELSE Drop(sp, used)
+SpareAfter(sp, t, v) == IF t = "VarUint" THEN After(sp, 9, Len(EncVarUint(v)))
+                        ELSE IF t \in {"VarBytes", "String"} THEN After(After(sp, 9, Len(EncVarUint(LenAs8(Len(v))))), Len(v), Len(v))
+                        ELSE After(sp, Len(WriteOf(t, v)), Len(WriteOf(t, v)))
+Write(it) == /\ Step /\ "Write" \in Acts /\ buf = <<>> /\ off = 0 /\ Len(items) < MaxWrites
              /\ sink' = sink \o WriteOf(it.t, it.v)
+             /\ spare' = SpareAfter(spare, it.t, it.v)
              /\ items' = Append(items, it)
              /\ res' = Res(<<>>, WriteSizeOf(it.t, it.v), FALSE, FALSE, 0, "")
              /\ act' = [name |-> "Write", n |-> 0, t |-> it.t, v |-> it.v]
              /\ UNCHANGED <<buf, off>>
 
+\* ZeroCopySink.Reset(): the slice is cut to length 0, the old bytes stay behind as stale spare capacity
+SinkReset == /\ Step /\ "Write" \in Acts /\ items # <<>>
+             /\ sink' = <<>> /\ spare' = sink \o spare /\ items' = <<>>
+             /\ res' = NoRes /\ act' = [name |-> "SinkReset", n |-> 0]
+             /\ UNCHANGED <<buf, off>>
+
+\* ZeroCopySink.BackUp(n) for the n bytes of the last written item (the only use the sink's callers make of it)
+SinkBackUp == /\ Step /\ "Write" \in Acts /\ items # <<>>
+              /\ LET last == items[Len(items)]
+                     n == Len(WriteOf(last.t, last.v))
+                 IN /\ sink' = SubSeq(sink, 1, Len(sink) - n)
+                    /\ spare' = SubSeq(sink, Len(sink) - n + 1, Len(sink)) \o spare
+                    /\ act' = [name |-> "SinkBackUp", n |-> n]
+              /\ items' = SubSeq(items, 1, Len(items) - 1)
+              /\ res' = NoRes
+              /\ UNCHANGED <<buf, off>>
+
 Next == \/ \E name \in NullaryOps : Read(name, 0)
         \/ \E name \in CountOps : \E n \in NArgs : Read(name, n)
         \/ \E n \in BackArgs : BackUp(n)
         \/ \E it \in Items : Write(it)
+        \/ SinkReset \/ SinkBackUp
 
 Spec == Init /\ [][Next]_vars
 
 \* ------------------------------------------------------------------ properties (C18)
 IsByteSeq(s) == \A i \in 1..Len(s) : s[i] \in 0..255
 \* never reads out of bounds; every call has a defined outcome (totality = TLC evaluates every enabled call)
-TypeOK == /\ off \in 0..Len(buf) /\ IsByteSeq(sink)
+TypeOK == /\ off \in 0..Len(buf) /\ IsByteSeq(sink) /\ IsByteSeq(spare)
 
 \* the bytes consumed by the last read
 Consumed == Slice(buf, off, off')
@@ -100,5 +134,5 @@ ReadBack(b, o, its) ==
 RoundTrip == ReadBack(sink, 0, items)
 
 \* exported projection (determines the VIEW)
-State == [buf |-> buf, off |-> off, sink |-> sink, items |-> items]
+State == [buf |-> buf, off |-> off, sink |-> sink, spare |-> spare, items |-> items]
 =============================================================================
